@@ -10,6 +10,7 @@ func init() {
 	vHarness["C05_soup"] = VerifHarness_C05_soup
 	vHarness["C05_forcount"] = VerifHarness_C05_forcount
 	vHarness["C05_equ"] = VerifHarness_C05_equ
+	vHarness["C05_fortail"] = VerifHarness_C05_fortail
 }
 
 // G1: the lexer on every rune sequence of length Nb over ASCII + U+FFFD
@@ -152,5 +153,50 @@ func VerifHarness_C05_equ() {
 		vAssert("error-xor-warrior", len(w.Code) == 1)
 		vReach("accepted")
 	}
+	vReach("end")
+}
+
+// the tail of the stream after a completed FOR block: whatever follows
+// (instructions, an error token from the lexer, end of input with or without
+// a newline) the expander finishes and nothing keeps running
+func VerifHarness_C05_fortail() {
+	var toks []token
+	toks = append(toks, token{tokText, "i"}, token{tokText, "for"}, token{tokNumber, "1"}, token{tokNewline, ""},
+		token{tokText, "dat"}, token{tokText, "i"}, token{tokNewline, ""},
+		token{tokText, "rof"})
+	// what follows the rof keyword; the stream has the shape the lexer
+	// guarantees (C05_lexer): exactly one terminal token, at the end
+	n := vParam("tail")
+	errored := false
+	for k := 0; k < n && !errored; k++ {
+		switch vPick("tailtok", 0, 5) {
+		case 0:
+			toks = append(toks, token{tokNewline, ""})
+		case 1:
+			toks = append(toks, token{tokText, "dat"})
+		case 2:
+			toks = append(toks, token{tokNumber, "0"})
+		case 3:
+			toks = append(toks, token{tokError, "expected '=' after '='"})
+			errored = true
+		case 4:
+			toks = append(toks, token{tokComment, ";c"})
+		case 5:
+			toks = append(toks, token{tokInvalid, "!"})
+		}
+	}
+	if !errored {
+		toks = append(toks, token{tokEOF, ""})
+	}
+	syms, forSeen, err := ScanInput(newBufTokenReader(toks))
+	vAssert("scan-ok", err == nil && forSeen)
+	vUnwind(60)
+	out, err := ForExpand(newBufTokenReader(toks), syms)
+	vAssert("expand-returns-tokens", err == nil && len(out) >= 1)
+	if len(out) > 0 {
+		last := out[len(out)-1]
+		vAssert("stream-ends-with-terminal-token", last.typ == tokEOF || last.typ == tokError)
+	}
+	vObserve("nout", uint64(len(out)))
 	vReach("end")
 }
